@@ -22,6 +22,7 @@ node is owned by the function that created it until it is passed on).
 from __future__ import annotations
 
 import z3
+from z3 import And
 
 from .kinds import (
     K_INT, K_STR, NONE, BoolV, ConstV, DictV, IntV, KDict, KList, KOpaque, ListV, NoneV, OpaqueV,
@@ -209,7 +210,15 @@ def node_model(eng, st, pos, kw):
     for a in rest:
         flat.append(a)
     outs = []
-    for s0, args in eng.split_all(st, flat):
+    kw_names = [k for k in kw if k not in ("**", "tag", "toParseString")]
+    for s0, allargs in eng.split_all(st, flat + [kw[k] for k in kw_names]):
+        args = allargs[:len(flat)]
+        kw = {**kw, **dict(zip(kw_names, allargs[len(flat):]))}     # optional attribute values: one path per alternative
+        none_attr = [k for k in kw_names if isinstance(kw[k], NoneV)]
+        if none_attr:
+            # minidom stores the None; writing the document later fails on it
+            outs.append((s0, RaiseV("TypeError", None, f"node(): attribute {none_attr[0]} is None")))
+            continue
         strs = [a for a in args if isinstance(a, StrV)]
         if len(strs) > 1:
             outs.append((s0, RaiseV("PyXFormError", StrV("Invalid value for `unicode_args`."), "node(): two text arguments")))
@@ -301,6 +310,12 @@ def node_model(eng, st, pos, kw):
                 continue
             r = z3.FreshConst(XNODE.sort(), "node")
             s = s.assume(z3.And(f_type()(r) == 1, f_tag()(r) == tag.t, f_attrs()(r) == attrs, f_kids()(r) == kids))
+            elems = [a for a in args if not isinstance(a, StrV)]
+            if elems and not strs and all(isinstance(a, OpaqueV) and a.kind == XNODE for a in elems):
+                # children given one by one: their positions, as ground facts (the sequence solvers do not always derive
+                # nth(concat(unit(a), unit(b)), 1) == b by themselves)
+                s = s.assume(z3.And(z3.Length(f_kids()(r)) == len(elems),
+                                    *[f_kids()(r)[i] == a.t for i, a in enumerate(elems)]))
             outs.append((s, OpaqueV(XNODE, r)))
     return outs
 
@@ -343,7 +358,13 @@ def mutate_node(eng, st, recv: OpaqueV, meth, pos, kw, node):
                 if isinstance(ks, RaiseV):
                     outs.append((s2, recv, ks))
                     continue
-                s3, r = _derive(eng, s2, recv.t, kids=z3.Concat(f_kids()(recv.t), ks))
+                old_kids = f_kids()(recv.t)
+                s3, r = _derive(eng, s2, recv.t, kids=z3.Concat(old_kids, ks))
+                if isinstance(c, OpaqueV):
+                    # a fact of the theory of sequences that the solvers do not always derive: the appended child sits
+                    # at index len(old children) of the new child list
+                    s3 = s3.assume(And(f_kids()(r.t)[z3.Length(old_kids)] == c.t,
+                                       z3.Length(f_kids()(r.t)) == z3.Length(old_kids) + 1))
                 outs.append((s3, r, NONE))
         return outs
     if meth == "insertBefore" and len(pos) == 2:
